@@ -35,7 +35,9 @@ READ_VALID = ["plain", "plain2.3", "arrs1.ba[1]{40}", "padded1", "str1", "big_in
               "plain2.2", "plain3.13", "s20_ary{2}"]
 READ_INVALID = ["nope", "padded1.nope", "plain{x}", "padded_ary[9]", "padded_ary{4}", "padded1.3", "none_tag",
                 # requests that parse locally into a different wire name (bit of an element, BOOL-array element / range) and are refused by the controller
-                "big_int[2100].3", "arrs1.ba[200]", "arrs1.ba[40]{40}"]
+                "big_int[2100].3", "arrs1.ba[200]", "arrs1.ba[40]{40}",
+                # indexes far beyond the end, in every width an element number can take on the wire
+                "big_int[70000]", "padded_ary[16777216].d1"]
 
 
 def write_alphabet(proj):
@@ -52,7 +54,7 @@ def write_alphabet(proj):
         ("nope", 1), ("padded1.nope", 1), ("plain3{x}", 1), ("padded_ary[9]", pv), ("padded_ary{4}", [pv] * 4), ("padded1.3", True),
         ("plain3", "abc"), ("s20_ary{3}", ["a", "b"]), ("arrs1.ba[5]{32}", [True] * 32), ("ro_tag", 1),
         # several elements requested, a value without a length given; a bit of an element beyond the array
-        ("big_int{3}", 7), ("arrs1.ba[32]{32}", True), ("s20_ary{2}", None), ("big_int[2100].3", True),
+        ("big_int{3}", 7), ("arrs1.ba[32]{32}", True), ("s20_ary{2}", None), ("big_int[2100].3", True), ("big_int[65536]", 1),
     ]
     return valid, invalid
 
@@ -84,7 +86,7 @@ def memory_problem(proj, pre, reqs, res):
     return None
 
 
-REFUSALS = [(0x04, []), (0x05, [0x0002]), (0xFF, [0x2199]), (0xFF, []), (0x1F, []), (0x01, [0x9999]), (0xFF, [0x2105]), (0x10, []), (0x0F, [])]
+REFUSALS = [(0x00, []), (0x04, []), (0x05, [0x0002]), (0xFF, [0x2199]), (0xFF, []), (0x1F, []), (0x01, [0x9999]), (0xFF, [0x2105]), (0x10, []), (0x0F, [])]
 TAG_SERVICES = (0x4C, 0x52, 0x4D, 0x53, 0x4E)
 
 
@@ -112,11 +114,17 @@ def run_refusals(rep, cfg, proj, ctl, d, op, alone, statuses=REFUSALS):
         state["n"] += 1
         if state["n"] != state["target"]:
             return None
+        if state["forced"][0] == 0 and req.service != 0x52:
+            return None  # the "ends early" answer below is only meaningful for a fragmented read
         try:
             state["hit"] = ctl.resolve(req.path).tag.full_name
         except Exception:  # noqa
             state["hit"] = "?"
         st, ext = state["forced"]
+        if st == 0:
+            # the controller ends a fragmented read early: "success, no more data" after the type code and one byte (the tag shrank on-line):
+            # what has arrived cannot be the value, the request fails WITH an error text, its neighbours are untouched
+            return (0, [], b"\xc3\x00\x01")
         return (st, list(ext), b"")
 
     def run(lst):
